@@ -904,6 +904,72 @@ static void run_bigwrite(const Plan& p, Sources& src)
 	}
 }
 
+// two independent File objects written from two threads at once (after seeded C16-P: a swap buffer shared by all File objects): each
+// file must hold exactly the bytes of its own arrays in its own order
+static void run_duel(const Plan& p, int caseno)
+{
+	std::string pa = ref::tmpdir() + "/c16duel_a.bin", pb = ref::tmpdir() + "/c16duel_b.bin";
+	Array<short> s1, s2;
+	Array<int> i1, i2;
+	Array<Long> l1, l2;
+	Array<double> d1, d2;
+	int n1 = 3 + caseno % 5, n2 = 100;
+	for (int k = 0; k < n1; k++) {
+		s1 << (short)(k * 257 + caseno);
+		i1 << (int)(k * 0x01020304 + caseno);
+		l1 << (Long)((Long)k * 0x0102030405060708LL + caseno);
+		d1 << (k * 1.5 + caseno);
+	}
+	for (int k = 0; k < n2; k++) {
+		s2 << (short)(-k * 3 - 1);
+		i2 << (int)(~k * 0x10203);
+		l2 << (Long)(-(Long)k * 0x1112131415161718LL - 7);
+		d2 << (-k * 0.25);
+	}
+	int o1 = p.init, o2 = (caseno & 8) ? 1 : 0;
+	const int R = 200;
+	std::atomic<int> started{0};
+	std::thread other([&]() {
+		File f(String(pb.c_str()), File::WRITE);
+		f.setEndian((Endian)o2);
+		started = 1;
+		for (int r = 0; r < R; r++)
+			f << s2 << i2 << l2 << d2;
+	});
+	while (!started)
+		std::this_thread::yield();
+	{
+		File f(String(pa.c_str()), File::WRITE);
+		f.setEndian((Endian)o1);
+		for (int r = 0; r < R; r++)
+			f << s1 << i1 << l1 << d1;
+	}
+	other.join();
+	std::string ea, eb, one;
+	for (int k = 0; k < n1; k++) ref_put(one, to_bits<short>(s1[k]), 2, o1);
+	for (int k = 0; k < n1; k++) ref_put(one, to_bits<int>(i1[k]), 4, o1);
+	for (int k = 0; k < n1; k++) ref_put(one, to_bits<Long>(l1[k]), 8, o1);
+	for (int k = 0; k < n1; k++) ref_put(one, to_bits<double>(d1[k]), 8, o1);
+	for (int r = 0; r < R; r++) ea += one;
+	one.clear();
+	for (int k = 0; k < n2; k++) ref_put(one, to_bits<short>(s2[k]), 2, o2);
+	for (int k = 0; k < n2; k++) ref_put(one, to_bits<int>(i2[k]), 4, o2);
+	for (int k = 0; k < n2; k++) ref_put(one, to_bits<Long>(l2[k]), 8, o2);
+	for (int k = 0; k < n2; k++) ref_put(one, to_bits<double>(d2[k]), 8, o2);
+	for (int r = 0; r < R; r++) eb += one;
+	std::string ga, gb;
+	bool ra = ref::slurp(pa, ga), rb = ref::slurp(pb, gb);
+	unlink(pa.c_str());
+	unlink(pb.c_str());
+	VF_CHECK(ra && rb, "harness: cannot read the two files of the concurrent-writers part");
+	size_t da = 0, db = 0;
+	while (da < ga.size() && da < ea.size() && ga[da] == ea[da]) da++;
+	while (db < gb.size() && db < eb.size() && gb[db] == eb[db]) db++;
+	VF_CHECK(ga == ea, "File (", ORDER_NAME[o1], ") written while another thread writes arrays to another File: ", ga.size(), " bytes, want ", ea.size(), ", first difference at offset ", da);
+	VF_CHECK(gb == eb, "File (", ORDER_NAME[o2], ") written by a second thread while the first writes arrays to another File: ", gb.size(), " bytes, want ", eb.size(), ", first difference at offset ", db);
+	vf::stats().cls("file.two_threads_two_files");
+}
+
 static int g_caseno = 0;
 
 void vf_run_case(const std::string& part, const vf::Case& c)
@@ -969,6 +1035,8 @@ void vf_run_case(const std::string& part, const vf::Case& c)
 		std::string path = ref::tmpdir() + "/c16w_" + std::to_string(g_caseno % 4) + ".bin";
 		std::string path2 = ref::tmpdir() + "/c16r_" + std::to_string(g_caseno % 4) + ".bin";
 		g_caseno++;
+		if (g_caseno % 16 == 1)
+			run_duel(p, g_caseno);
 		if (p.fcopy == 0) {
 			File f(String(path.c_str()), File::WRITE);
 			VF_CHECK(!!f, "harness: cannot create ", path);
